@@ -8,7 +8,7 @@
    C12_selfclose_local (each on its exact domain, the excluded shapes proved deviating: *_refuted).  The *_partial
    theorems are the earlier per-invocation statements, kept. *)
 From Coq Require Import ZArith List.
-From Emmet Require Import lib.Base model.MarkupConvert model.OutStream model.FormatHtml proofs.HtmlEvents
+From Emmet Require Import lib.Base model.MarkupConvert model.MarkupResolve model.OutStream model.FormatHtml proofs.HtmlEvents
      proofs.FormatSteps proofs.FormatProofs proofs.FormatChunks proofs.FormatTabstops proofs.FormatCosmetic proofs.FormatDepth proofs.FormatSelfClose
      proofs.FormatLines proofs.FormatDepthFull proofs.FormatSelfCloseFull proofs.FormatComments.
 
@@ -436,3 +436,14 @@ Example comments_positions_nonvacuous :
   texts (content (html_format (with_comment true c) [n])) =
   texts (content (html_format (with_comment false c) [n])) ++ comment_texts (oc_comment_after c) n.
 Proof. cbv zeta. split; [reflexivity|]. split; vm_compute; reflexivity. Qed.
+
+(* The domains hold on what the parser and resolver produce: div>p{a\nb}+ul>li*2+span>em (html, no snippets) is in
+   depth_dom and align_dom; its stream has 49 chunks. *)
+Example domains_on_parser_output :
+  let mc := mkMConfig [104;116;109;108]%N [] [] WNone None None false None [[115;112;97;110];[101;109]]%N false false false [] [] None in
+  let ab := [100;105;118;62;112;123;97;10;98;125;43;117;108;62;108;105;42;50;43;115;112;97;110;62;101;109]%N in
+  match markup_parse mc ab with
+  | Ok t => depth_dom ex_c1 t = true /\ align_dom ex_c1 t = true /\ length (fchunks (html_format ex_c1 t)) = 49
+  | _ => False
+  end.
+Proof. vm_compute. repeat split. Qed.
